@@ -7,24 +7,27 @@ broadcasters, writer goroutine, per-channel batch timer as threads; every label 
 external call of the Go code; the transport frame log `wire` is part of the state).
 
 Full statement (DESIGN `bracket`): for EVERY configuration and every reachable state, `wire` is
-well-bracketed.  That statement is FALSE of the code as it is — the model, which mirrors the code,
-exhibits four counter-witnesses (below, each also replayed on the real code by the check):
+well-bracketed.  That statement is FALSE of the code — the model, which mirrors the code, exhibits
+counter-witnesses (below, each also replayed on the real code by the check):
 
-* C10-1  offset-0 publication before the subscribe reply (`offset0Checked = false`),
+* C10-1  offset-0 publication before the subscribe reply — FIXED in /repo by commit 9c975f8e
+  (`offset0Checked = true` is now the code as it is; the witness is kept for the pre-fix mode
+  `offset0Checked = false` and the check reports a regression as a violation),
 * C10-2  server-side subscribe commits before it writes the subscribe push,
 * C10-3  `ReplyWithoutQueue`: the unsubscribe reply overtakes queued pushes,
 * C10-4  per-channel batching: `perChannelWriter.Add` after `delWriter`.
 
 What is proved: `bracket_partial` — for the configurations `Good` (offset-0 publications checked =
-the proposed fix applied, client-side subscription, replies through the queue, no per-channel
-batching, subscribe/unsubscribe calls for the channel not overlapping), for ALL interleavings of any
-number of subscribe/unsubscribe cycles, broadcasts of all four kinds, positioned or not, and writer
-steps, the frame log is well-bracketed in every reachable state — also the frames still queued.
-Missing for the full theorem: exactly the four configurations/defects above.
+the current code, client-side subscription, replies through the queue, no per-channel batching,
+subscribe/unsubscribe calls for the channel not overlapping), for ALL interleavings of any number of
+subscribe/unsubscribe cycles, broadcasts of all four kinds (the offset-0 path included, at full
+strength), positioned or not, and writer steps, the frame log is well-bracketed in every reachable
+state — also the frames still queued.
+Missing for the full theorem: exactly the three open configurations/defects C10-2..4.
 -/
 namespace CentrifugeVerif.Bracket
 
-/-- `bracket` for the fixed variant, restricted to the configurations where it holds. -/
+/-- `bracket` for the current code (offset-0 path checked), restricted to the configurations where it holds. -/
 theorem bracket_partial (cfg : Cfg) (hg : Good cfg) (s : State) (hr : Reachable cfg s) :
     wellBracketed s.wire = true := by
   obtain ⟨o, ho, _⟩ := (inv_reachable hg hr).ok
@@ -68,23 +71,28 @@ example :
        .uSpawn false, .uStep, .uStep, .uStep, .wGrab, .wWrite]).map (·.wire)
       = some [.subStart, .push .pub0 2, .push .join 3, .subEnd] := by decide
 
-/-! ### counter-witnesses: the code as it is violates the full statement -/
+/-! ### counter-witnesses: the full statement does not hold -/
 
+/-- the code as it is (since 9c975f8e) -/
 def asIs (ss pos bat rwq : Bool) : Cfg :=
   { serverSide := ss, positioned := pos, batching := bat, rwq := rwq,
-    offset0Checked := false, serial := true, pubSerial := true }
+    offset0Checked := true, serial := true, pubSerial := true }
 
-/-- C10-1: a publication without offset lands between hub add and the subscribe reply and is written
-first (client-side, non-positioned; the same path exists for positioned subscriptions). -/
+/-- the code before 9c975f8e -/
+def preFix (ss pos bat rwq : Bool) : Cfg := { asIs ss pos bat rwq with offset0Checked := false }
+
+/-- C10-1 (pre-fix mode only): a publication without offset lands between hub add and the subscribe
+reply and is written first (client-side, non-positioned; the same path exists for positioned
+subscriptions). -/
 example :
-    ∃ s, run (asIs false false false false) State.init
+    ∃ s, run (preFix false false false false) State.init
       [.sSpawn, .sStep, .sStep, .bStart .pub0 1, .bEnqueue 0, .wGrab, .wWrite] = some s ∧
       s.wire = [.push .pub0 1] ∧ wellBracketed s.wire = false := by decide
 
-/-- … and with the switch on (the proposed fix) the same labels are no longer a path: the publication
-is dropped at the `flagSubscribed` check, there is nothing to enqueue. -/
+/-- … and in the current code the same labels are no longer a path: the publication is dropped at the
+`flagSubscribed` check, there is nothing to enqueue. -/
 example :
-    run { asIs false false false false with offset0Checked := true } State.init
+    run (asIs false false false false) State.init
       [.sSpawn, .sStep, .sStep, .bStart .pub0 1, .bCheck 0, .bEnqueue 0] = none := by decide
 
 /-- C10-2: server-side subscribe, a join delivered between `commitSubscription` and the subscribe push. -/
